@@ -604,6 +604,10 @@ func runOne(ctx *hx.Ctx, scn *chainsim.Scenario) {
 func main() {
 	ctx := hx.Init("C15")
 	if ctx.Replay != "" {
+		if sc := loadSyncReplay(ctx.Replay); sc != nil {
+			runSyncCases(ctx, buildSyncBin(ctx), []*syncCase{sc})
+			ctx.Finish("replay (start-up re-sync case)", nil)
+		}
 		scn, err := chainsim.LoadReplay(ctx.Replay)
 		if err != nil {
 			hx.Fatal("bad replay file: %v", err)
@@ -611,7 +615,16 @@ func main() {
 		runOne(ctx, scn)
 		ctx.Finish("replay", nil)
 	}
+	// the test binary of cmd/thor (hook for sync_logdb.go) is built from the tree while the import histories run
+	sbc := make(chan *syncBin, 1)
+	go func() { sbc <- buildSyncBin(ctx) }()
+	var syncCorpus []*syncCase
 	for _, f := range chainsim.Corpus(os.Getenv("VERIF_CORPUS")) {
+		if sc := loadSyncReplay(f); sc != nil {
+			syncCorpus = append(syncCorpus, sc)
+			ctx.Cov.Count("corpus")
+			continue
+		}
 		if scn, err := chainsim.LoadReplay(f); err == nil {
 			runOne(ctx, scn)
 			ctx.Cov.Count("corpus")
@@ -626,13 +639,17 @@ func main() {
 		rr := r.Fork(uint64(1000000 + i))
 		runOne(ctx, chainsim.GenLong(rr, chainsim.GenOpts{Logs: true}, rr.Range(30, 110)))
 	}
+	sb := <-sbc
+	runSyncCases(ctx, sb, syncCorpus)
+	syncRule := syncLogPhase(ctx, sb)
 	ctx.Finish(fmt.Sprintf("import histories on a real chain.Repository + logdb.NewMem through the node's real writeLogs (hook): %d bushy trees (8-60 blocks, "+
 		"best moving to higher / equal / lower siblings, the same tx with different logs on siblings, blocks without logs, 0-6 topics incl. zero / "+
 		"leading-zero / address topics, empty and 0x00 data, zero amounts) + %d long; after every import FilterEvents(nil)/FilterTransfers(nil) "+
 		"vs the model's tables and vs the receipts of the real canonical chain, plus random filters (0-3 criteria, ranges incl. inverted / "+
 		"out-of-range, offsets up to 2^63-1 and beyond, limit 0, both orders) vs the model and vs a reference filter; non-trivial = a fork and >= 4 logs",
-		nBushy, nLong),
+		nBushy, nLong)+syncRule,
 		[]string{"SQLite executes the SQL; the model gives the statements their meaning as list functions (tied by this run)",
 			"block / tx ids and origins are inputs computed by the real library",
+			"syncLogDB / seekLogDBSyncPosition / verifyLogDB are the real unexported functions of package main, run inside cmd/thor's own test binary (hook cmd/thor/verif_hooks_synclog_test.go: decodes blocks / receipts, replays Writer operations for the pre-state, dumps return values and tables); progress-bar output is discarded",
 			"the node is constructed with node.New(repo, logDB) only; writeLogs is the real unexported method (hook cmd/thor/node/verif_hooks.go); the becomeBest decision is an input of the history"})
 }
